@@ -35,6 +35,10 @@ def build_base(n, prog):
             # ends up BETWEEN the two rails of the qubit
             sub = lw.Circuit(3); sub.bs(0, 2, reflectivity=args[0]); sub.herald(0, 1)
             c.add(sub, 2 * q)
+        elif name == "ANC2":          # two ancillas (one carrying a photon) between the rails
+            sub = lw.Circuit(4); sub.bs(0, 3, reflectivity=args[0], convention="H"); sub.bs(1, 2, reflectivity=0.5)
+            sub.herald(0, 1); sub.herald(0, 2)
+            c.add(sub, 2 * q)
         elif name == "SWAP":
             c.add(qubit.SWAP((2 * q, 2 * q + 1), (2 * q + 2, 2 * q + 3)), 0)
         else:
@@ -59,9 +63,9 @@ def program_unitary(n, prog):
         elif name == "CCNOT":
             t = args[0] if args else 2
             m = rq.controlled_x(n, tuple(x + q for x in range(3) if x != t), q + t)
-        elif name == "ANC":
+        elif name in ("ANC", "ANC2"):
             from .ref_circuit import bs_matrix
-            m = rq.kron(*[bs_matrix(args[0], "Rx") if k == q else rq.I2 for k in range(n)])
+            m = rq.kron(*[bs_matrix(args[0], "Rx" if name == "ANC" else "H") if k == q else rq.I2 for k in range(n)])
         else:
             m = rq.kron(*[gate_matrix_1q(g) if k == q else rq.I2 for k in range(n)])
         U = m @ U
@@ -88,12 +92,13 @@ def qubit_state(circ, n, vin):
     return v / nrm, nrm
 
 
-def outcome_frequencies(circ, n, vin):
+def outcome_frequencies(circ, n, vin, scale=1.0):
     """Noise-free frequencies of the dual-rail outcomes (post-selected on one photon per qubit,
-    heralds satisfied), as {State on the qubit modes: probability}."""
+    heralds satisfied), as {State on the qubit modes: weight}. `scale` multiplies every weight: the
+    tomography code normalises by the total, so any positive scale must give the same result."""
     a = amplitudes(circ, n, vin)
     tot = sum(abs(x) ** 2 for x in a.values())
-    return {lw.State(list(rq.dual_rail(b))): abs(x) ** 2 / tot for b, x in a.items()}
+    return {lw.State(list(rq.dual_rail(b))): scale * abs(x) ** 2 / tot for b, x in a.items()}
 
 
 def qubit_unitary(circ, n):
